@@ -227,7 +227,7 @@ Proof.
     + cbn [pfind]. rewrite Hk. reflexivity.
     + destruct (bytes_ltb k' k) eqn:E2.
       * cbn [pfind]. rewrite IH. reflexivity.
-      * pose proof (bytes_ltb_antisym k k' E1 E2). subst k'. cbn [pfind]. reflexivity.
+      * pose proof (bytes_ltb_antisym k k' E1 E2). subst k'. cbn [pfind]. rewrite Hk. reflexivity.
 Qed.
 
 Lemma pfind_perase_other {V} (a k : bytes) (p : list (bytes * V)) :
@@ -251,6 +251,45 @@ Proof.
   rewrite IH. destruct (bytes_eqb k k_array) eqn:E; [reflexivity|]. apply pfind_setparameter_other, E.
 Qed.
 
+Lemma bytes_ltb_irrefl (a : bytes) : bytes_ltb a a = false.
+Proof. induction a as [|x a IH]; simpl; [reflexivity|]. rewrite Z.ltb_irrefl. exact IH. Qed.
+
+Lemma bytes_ltb_trans (a : bytes) : forall b' c, bytes_ltb a b' = true -> bytes_ltb b' c = true -> bytes_ltb a c = true.
+Proof.
+  induction a as [|x a IH]; intros [|y b'] [|z c]; simpl; try discriminate; auto.
+  destruct (Z.ltb_spec x y), (Z.ltb_spec y x), (Z.ltb_spec y z), (Z.ltb_spec z y), (Z.ltb_spec x z), (Z.ltb_spec z x);
+    intros A1 A2; try discriminate; try reflexivity; try lia; eauto.
+Qed.
+
+Lemma psorted_tail {V} (kv : bytes * V) p : psorted (kv :: p) = true -> psorted p = true.
+Proof. destruct kv as [k v]. destruct p as [|[k' v'] r]; [reflexivity|]. cbn [psorted]. intros H. apply andb_true_iff in H as [_ H]. exact H. Qed.
+
+Lemma psorted_gt {V} (p : list (bytes * V)) : forall k v, psorted ((k, v) :: p) = true ->
+  forall k' v', In (k', v') p -> bytes_ltb k k' = true.
+Proof.
+  induction p as [|[k1 v1] p IH]; intros k v Hs k' v' Hin; [contradiction|].
+  cbn [psorted] in Hs. apply andb_true_iff in Hs as [H1 H2]. destruct Hin as [Heq|Hin].
+  - inversion Heq; subst. exact H1.
+  - apply (bytes_ltb_trans k k1 k' H1). exact (IH k1 v1 H2 k' v' Hin).
+Qed.
+
+Lemma pfind_none_gt {V} (k : bytes) (p : list (bytes * V)) :
+  (forall k' v', In (k', v') p -> bytes_ltb k k' = true) -> pfind k p = None.
+Proof.
+  induction p as [|[k1 v1] p IH]; intros H; [reflexivity|]. cbn [pfind].
+  destruct (bytes_eqb k1 k) eqn:E.
+  - apply bytes_eqb_eq in E. subst k1. specialize (H k v1 (or_introl eq_refl)). rewrite bytes_ltb_irrefl in H. discriminate.
+  - apply IH. intros k' v' Hin. apply (H k' v'). right. exact Hin.
+Qed.
+
+Lemma pfind_perase_self {V} (k : bytes) (p : list (bytes * V)) : psorted p = true -> pfind k (perase k p) = None.
+Proof.
+  induction p as [|[k1 v1] p IH]; intros Hs; [reflexivity|]. cbn [perase].
+  destruct (bytes_eqb k1 k) eqn:E.
+  - apply bytes_eqb_eq in E. subst k1. apply pfind_none_gt. exact (psorted_gt p k v1 Hs).
+  - cbn [pfind]. rewrite E. apply IH. exact (psorted_tail _ _ Hs).
+Qed.
+
 Lemma is_string_params_pfind (p q : params) : pfind k_array p = pfind k_array q -> is_string_params p = is_string_params q.
 Proof. intros H. unfold is_string_params, param_is_str. rewrite H. reflexivity. Qed.
 
@@ -259,9 +298,10 @@ Proof. destruct t; reflexivity. Qed.
 
 (* the fragment for the depth queries: the __array__ parameter of an IndexedForm node (which Form::type hands to
    the type of its content) is not "string" / "bytestring" (they would turn the content's list type into a
-   string, a leaf) nor "categorical" *)
+   string, a leaf); if it is "categorical" (which Form::type erases) the parameters are a std::map (sorted keys) *)
 Definition idx_node_ok (m : fmeta) : bool :=
-  negb (is_string_params (m_params m)) && negb (param_is_str (m_params m) k_array s_categorical).
+  negb (is_string_params (m_params m)) &&
+  (negb (param_is_str (m_params m) k_array s_categorical) || psorted (m_params m)).
 
 Fixpoint idx_ok (f : form) : bool :=
   match f with
@@ -282,22 +322,24 @@ Proof.
   intros H. destruct (type_of_form ts c) as [out|e] eqn:Ec; [|cbn [type_of_form] in H; rewrite Ec in H; discriminate].
   rewrite (type_of_form_indexed ts m i c out Ec) in H. exists out.
   destruct (m_params m) as [|kv mine] eqn:Em.
-  - exists (rty_params out). assert (out = t) by (destruct (rty_params out); congruence). subst t.
+  - exists (rty_params out). assert (out = t) by (revert H; destruct (rty_params out); intros H; congruence). subst t.
     split; [reflexivity|]. split; [symmetry; apply rty_set_params_id|reflexivity].
-  - rewrite <- Em in *.
-    assert (Hcat : idx_node_ok m = true -> forall q b0, categorical_fix (m_params m) q b0 = q).
-    { unfold idx_node_ok. intros Hn q b0. apply andb_true_iff in Hn as [_ Hn]. unfold categorical_fix.
-      destruct (param_is_str (m_params m) k_array s_categorical); [discriminate|reflexivity]. }
-    destruct (rty_params out) as [|kv' op] eqn:Eo.
-    + replace (match m_params m with [] => Ok out | _ :: _ => Ok (rty_set_params (categorical_fix (m_params m) (m_params m) true) out) end)
-        with (Ok (rty_set_params (categorical_fix (m_params m) (m_params m) true) out)) in H by (rewrite Em; reflexivity).
-      eexists. split; [reflexivity|]. split; [congruence|].
-      intros Hn. rewrite (Hcat Hn). unfold idx_node_ok in Hn. apply andb_true_iff in Hn as [Hn _].
-      apply negb_true_iff in Hn. rewrite Hn. reflexivity.
-    + match type of H with match ?mp with [] => _ | _ :: _ => Ok ?r end = _ =>
-        replace (match mp with [] => Ok out | _ :: _ => Ok r end) with (Ok r) in H by (rewrite Em; reflexivity) end.
-      eexists. split; [reflexivity|]. split; [congruence|].
-      intros Hn. rewrite (Hcat Hn). apply is_string_params_pfind, pfind_merge_array.
+  - assert (Hstr : idx_node_ok m = true -> is_string_params (kv :: mine) = false).
+    { rewrite <- Em. unfold idx_node_ok. intros Hn. apply andb_true_iff in Hn as [Hn _]. apply negb_true_iff in Hn. exact Hn. }
+    assert (Hsort : idx_node_ok m = true -> param_is_str (kv :: mine) k_array s_categorical = true -> psorted (kv :: mine) = true).
+    { rewrite <- Em. unfold idx_node_ok. intros Hn Hc. apply andb_true_iff in Hn as [_ Hn]. rewrite Hc in Hn. exact Hn. }
+    assert (Hk : forall v (q : params), pfind k_array (pset k_categorical v q) = pfind k_array q).
+    { intros v q. apply pfind_pset_other. reflexivity. }
+    revert H. destruct (rty_params out) as [|kv' op] eqn:Eo; cbv iota; intros H; inversion H; subst; clear H.
+    + eexists. split; [reflexivity|]. split; [reflexivity|].
+      intros Hn. unfold categorical_fix. destruct (param_is_str (kv :: mine) k_array s_categorical) eqn:Ecat.
+      * transitivity (is_string_params (@nil (bytes * json))); [|reflexivity]. apply is_string_params_pfind.
+        rewrite Hk. apply pfind_perase_self. exact (Hsort Hn eq_refl).
+      * rewrite (Hstr Hn). reflexivity.
+    + eexists. split; [reflexivity|]. split; [reflexivity|].
+      intros Hn. apply is_string_params_pfind. unfold categorical_fix.
+      destruct (param_is_str (kv :: mine) k_array s_categorical); rewrite ?Hk;
+        exact (pfind_merge_array (kv :: mine) (kv' :: op)).
 Qed.
 
 Lemma mapM_id_ok {A} (l : list A) : mapM_id (map Ok l) = Ok l.
@@ -396,3 +438,337 @@ Proof.
   - discriminate.
   - cbn [type_of_form] in H. cbn [f_purelist_depth]. auto.
 Qed.
+
+Ltac union_types H ts cs l El :=
+  cbn [type_of_form] in H; destruct (mapM_id (map (type_of_form ts) cs)) as [l|?] eqn:El; cbn [bind] in H; [|discriminate];
+  inversion H; subst; clear H.
+
+Theorem minmax_depth_form_type ts f : idx_ok f = true -> forall t,
+  type_of_form ts f = Ok t -> f_minmax_depth f = Ok (t_minmax_depth t).
+Proof.
+  induction f as [m inner isz fmt dt|m|m o c IH|m s e c IH|m c size IH|m i c IH|m i c IH|m k c vw IH|m k c vw lsb IH
+                 |m c IH|m tg i cs IH|m ks cs IH|m hl|m g hl IH] using form_ind'; intros Hok t H; cbn [idx_ok] in Hok.
+  - cbn [type_of_form] in H. destruct dt; try discriminate; inversion H; subst;
+      cbn [f_minmax_depth]; f_equal; symmetry; apply numpy_type_depths.
+  - inversion H. reflexivity.
+  - bind_type H ts c t' Et. cbn [f_minmax_depth t_minmax_depth]. destruct (is_string_params (m_params m)); [reflexivity|].
+    rewrite (IH Hok _ eq_refl). reflexivity.
+  - bind_type H ts c t' Et. cbn [f_minmax_depth t_minmax_depth]. destruct (is_string_params (m_params m)); [reflexivity|].
+    rewrite (IH Hok _ eq_refl). reflexivity.
+  - bind_type H ts c t' Et. cbn [f_minmax_depth t_minmax_depth]. destruct (is_string_params (m_params m)); [reflexivity|].
+    rewrite (IH Hok _ eq_refl). reflexivity.
+  - apply andb_true_iff in Hok as [Hn Hok].
+    destruct (indexed_type_shape ts m i c t H) as (out & p' & Ho & -> & Hs).
+    cbn [f_minmax_depth]. rewrite t_minmax_depth_set by auto. auto.
+  - bind_type H ts c t' Et. cbn [f_minmax_depth t_minmax_depth]. auto.
+  - bind_type H ts c t' Et. cbn [f_minmax_depth t_minmax_depth]. auto.
+  - bind_type H ts c t' Et. cbn [f_minmax_depth t_minmax_depth]. auto.
+  - bind_type H ts c t' Et. cbn [f_minmax_depth t_minmax_depth]. auto.
+  - union_types H ts cs l El. cbn [f_minmax_depth t_minmax_depth].
+    rewrite (map_query_types ts (fun f => idx_ok f = true) f_minmax_depth t_minmax_depth cs l El IH (forallb_Forall' _ _ Hok)).
+    rewrite mapM_id_ok. reflexivity.
+  - union_types H ts cs l El. cbn [f_minmax_depth t_minmax_depth].
+    rewrite (map_query_types ts (fun f => idx_ok f = true) f_minmax_depth t_minmax_depth cs l El IH (forallb_Forall' _ _ Hok)).
+    rewrite mapM_id_ok. reflexivity.
+  - discriminate.
+  - cbn [type_of_form] in H. cbn [f_minmax_depth]. auto.
+Qed.
+
+Lemma mapM_id_types_length ts cs l : mapM_id (map (type_of_form ts) cs) = Ok l -> length l = length cs.
+Proof.
+  intros H. apply mapM_id_inv in H. apply (f_equal (@length _)) in H. rewrite !map_length in H. auto.
+Qed.
+
+Theorem branch_depth_form_type ts f : idx_ok f = true -> forall t,
+  type_of_form ts f = Ok t -> f_branch_depth f = Ok (t_branch_depth t).
+Proof.
+  induction f as [m inner isz fmt dt|m|m o c IH|m s e c IH|m c size IH|m i c IH|m i c IH|m k c vw IH|m k c vw lsb IH
+                 |m c IH|m tg i cs IH|m ks cs IH|m hl|m g hl IH] using form_ind'; intros Hok t H; cbn [idx_ok] in Hok.
+  - cbn [type_of_form] in H. destruct dt; try discriminate; inversion H; subst;
+      cbn [f_branch_depth]; f_equal; symmetry; apply numpy_type_depths.
+  - inversion H. reflexivity.
+  - bind_type H ts c t' Et. cbn [f_branch_depth t_branch_depth]. destruct (is_string_params (m_params m)); [reflexivity|].
+    rewrite (IH Hok _ eq_refl). reflexivity.
+  - bind_type H ts c t' Et. cbn [f_branch_depth t_branch_depth]. destruct (is_string_params (m_params m)); [reflexivity|].
+    rewrite (IH Hok _ eq_refl). reflexivity.
+  - bind_type H ts c t' Et. cbn [f_branch_depth t_branch_depth]. destruct (is_string_params (m_params m)); [reflexivity|].
+    rewrite (IH Hok _ eq_refl). reflexivity.
+  - apply andb_true_iff in Hok as [Hn Hok].
+    destruct (indexed_type_shape ts m i c t H) as (out & p' & Ho & -> & Hs).
+    cbn [f_branch_depth]. rewrite t_branch_depth_set by auto. auto.
+  - bind_type H ts c t' Et. cbn [f_branch_depth t_branch_depth]. auto.
+  - bind_type H ts c t' Et. cbn [f_branch_depth t_branch_depth]. auto.
+  - bind_type H ts c t' Et. cbn [f_branch_depth t_branch_depth]. auto.
+  - bind_type H ts c t' Et. cbn [f_branch_depth t_branch_depth]. auto.
+  - union_types H ts cs l El. cbn [f_branch_depth t_branch_depth].
+    rewrite (map_query_types ts (fun f => idx_ok f = true) f_branch_depth t_branch_depth cs l El IH (forallb_Forall' _ _ Hok)).
+    rewrite mapM_id_ok. reflexivity.
+  - union_types H ts cs l El. cbn [f_branch_depth t_branch_depth].
+    pose proof (mapM_id_types_length ts cs l El) as Hlen.
+    pose proof (map_query_types ts (fun f => idx_ok f = true) f_branch_depth t_branch_depth cs l El IH (forallb_Forall' _ _ Hok)) as Hm.
+    destruct cs as [|c0 cs']; destruct l as [|t0 l']; try discriminate; [reflexivity|].
+    rewrite Hm, mapM_id_ok. reflexivity.
+  - discriminate.
+  - cbn [type_of_form] in H. cbn [f_branch_depth]. auto.
+Qed.
+
+(* regularity: no fragment needed (parameters play no role) *)
+Theorem purelist_isregular_form_type ts f : forall t,
+  type_of_form ts f = Ok t -> f_purelist_isregular f = Ok (t_purelist_isregular t).
+Proof.
+  induction f as [m inner isz fmt dt|m|m o c IH|m s e c IH|m c size IH|m i c IH|m i c IH|m k c vw IH|m k c vw lsb IH
+                 |m c IH|m tg i cs IH|m ks cs IH|m hl|m g hl IH] using form_ind'; intros t H.
+  - cbn [type_of_form] in H. destruct dt; try discriminate; inversion H; subst;
+      cbn [f_purelist_isregular]; f_equal; symmetry; apply numpy_type_depths.
+  - inversion H. reflexivity.
+  - bind_type H ts c t' Et. reflexivity.
+  - bind_type H ts c t' Et. reflexivity.
+  - bind_type H ts c t' Et. cbn [f_purelist_isregular t_purelist_isregular]. auto.
+  - destruct (indexed_type_shape ts m i c t H) as (out & p' & Ho & -> & Hs).
+    cbn [f_purelist_isregular]. rewrite t_purelist_isregular_set. auto.
+  - bind_type H ts c t' Et. cbn [f_purelist_isregular t_purelist_isregular]. auto.
+  - bind_type H ts c t' Et. cbn [f_purelist_isregular t_purelist_isregular]. auto.
+  - bind_type H ts c t' Et. cbn [f_purelist_isregular t_purelist_isregular]. auto.
+  - bind_type H ts c t' Et. cbn [f_purelist_isregular t_purelist_isregular]. auto.
+  - union_types H ts cs l El. cbn [f_purelist_isregular t_purelist_isregular].
+    rewrite (map_query_types ts (fun _ => True) f_purelist_isregular t_purelist_isregular cs l El).
+    + rewrite all_regular_ok. f_equal. clear. induction l; simpl; [reflexivity|]. rewrite IHl. reflexivity.
+    + eapply Forall_impl; [|exact IH]. intros x Hx _. exact Hx.
+    + apply Forall_forall. auto.
+  - union_types H ts cs l El. reflexivity.
+  - discriminate.
+  - cbn [type_of_form] in H. cbn [f_purelist_isregular]. auto.
+Qed.
+
+(* ---- sample forms *)
+Definition p_str : params := [(k_array, JStr s_string)].
+Definition f_i64 : form := FNumpy meta0 [] 8 [108] (FD DInt64).
+Definition f_i64_23 : form := FNumpy meta0 [2; 3] 8 [108] (FD DInt64).
+Definition f_rec : form := FRecord meta0 (Some [[120]; [121]]) [FListOffset meta0 Fi64 f_i64; f_i64_23].
+Definition f_rec2 : form := FRecord meta0 (Some [[121]; [122]]) [f_i64; FEmpty meta0].
+(* var * option[union[2 * {x: var * int64, y: 2 * 3 * int64}, {y: int64, z: unknown}]] (second alternative virtual) *)
+Definition f_big : form :=
+  FListOffset meta0 Fi64
+    (FIndexedOption meta0 Fi64
+       (FUnion meta0 Fi8 Fi64 [FRegular meta0 f_rec 2; FVirtual meta0 (Some f_rec2) true])).
+(* var * option[categorical-free indexed[2 * {x: var * int64, y: 2 * 3 * int64}]] : union-free, reaches a record *)
+Definition f_big_rec : form :=
+  FListOffset meta0 Fi64 (FIndexedOption meta0 Fi64
+    (FIndexed (mkmeta false [(k_record, JStr [80])] None) Fi64 (FRegular meta0 (FVirtual meta0 (Some f_rec) false) 2))).
+
+(* ---- the fragment is needed: an IndexedForm whose __array__ = "string" sits on a plain list *)
+Definition f_idx_str : form := FIndexed (mkmeta false p_str None) Fi64 (FListOffset meta0 Fi64 f_i64).
+Example purelist_depth_form_type_refuted :
+  exists t, type_of_form [] f_idx_str = Ok t /\
+            f_purelist_depth f_idx_str = Ok 2 /\ t_purelist_depth t = 1 /\
+            f_minmax_depth f_idx_str = Ok (2, 2) /\ t_minmax_depth t = (1, 1) /\
+            f_branch_depth f_idx_str = Ok (false, 2) /\ t_branch_depth t = (false, 1) /\
+            erase t = TList None (Some true) (TNum DInt64).
+Proof. eexists. repeat split. Qed.
+
+(* ================================================================== 2. Form = Type: field queries *)
+Lemma tres_of_ok {A} (r : res A) x : tres_of r = TOk x -> r = Ok x.
+Proof. destruct r as [a|[]]; simpl; congruence. Qed.
+
+Lemma t_fields_set p t :
+  t_keys (rty_set_params p t) = t_keys t /\ t_numfields (rty_set_params p t) = t_numfields t /\
+  (forall k, t_fieldindex (rty_set_params p t) k = t_fieldindex t k) /\
+  (forall i, t_key (rty_set_params p t) i = t_key t i) /\
+  (forall k, t_haskey (rty_set_params p t) k = t_haskey t k).
+Proof. destruct t; repeat split. Qed.
+
+Lemma numpy_type_fields s p dt inner :
+  let t := fold_right (fun d t => RReg [] s d t) (RNum p s dt) inner in
+  t_keys t = TErr TInvalid /\ t_numfields t = TOk (-1) /\ (forall k, t_fieldindex t k = TErr TInvalid) /\
+  (forall i, t_key t i = TErr TInvalid) /\ (forall k, t_haskey t k = TErr TInvalid).
+Proof. induction inner as [|d inner IH]; cbn zeta in *; [repeat split|exact IH]. Qed.
+
+Definition fields_imp (f : form) (t : rty) : Prop :=
+  (forall ks, t_keys t = TOk ks -> f_keys f = Ok ks) /\
+  (forall n, t_numfields t = TOk n -> f_numfields f = Ok n) /\
+  (forall k i, t_fieldindex t k = TOk i -> f_fieldindex f k = Ok i) /\
+  (forall i k, t_key t i = TOk k -> f_key f i = Ok k) /\
+  (forall k b0, t_haskey t k = TOk b0 -> f_haskey f k = Ok b0).
+
+(* whatever the Type answers, the Form answers the same (all form classes, any parameters) *)
+Theorem field_queries_form_type ts f : forall t, type_of_form ts f = Ok t -> fields_imp f t.
+Proof.
+  induction f as [m inner isz fmt dt|m|m o c IH|m s e c IH|m c size IH|m i c IH|m i c IH|m k c vw IH|m k c vw lsb IH
+                 |m c IH|m tg i cs IH|m ks cs IH|m hl|m g hl IH] using form_ind'; intros t H.
+  - assert (Ht : exists p s, t = fold_right (fun d t => RReg [] s d t) (RNum p s dt) inner).
+    { cbn [type_of_form] in H. destruct dt; try discriminate; inversion H; eauto. }
+    destruct Ht as (p & s & ->). destruct (numpy_type_fields s p dt inner) as (H1 & H2 & H3 & H4 & H5).
+    unfold fields_imp. rewrite H1, H2. repeat split; intros; try rewrite ?H3, ?H4, ?H5 in *; try discriminate.
+    cbn [f_numfields]. congruence.
+  - inversion H. unfold fields_imp. cbn. repeat split; intros; congruence.
+  - bind_type H ts c t' Et. exact (IH _ eq_refl).
+  - bind_type H ts c t' Et. exact (IH _ eq_refl).
+  - bind_type H ts c t' Et. exact (IH _ eq_refl).
+  - destruct (indexed_type_shape ts m i c t H) as (out & p' & Ho & -> & _).
+    destruct (t_fields_set p' out) as (H1 & H2 & H3 & H4 & H5). specialize (IH _ Ho).
+    unfold fields_imp in *. rewrite H1, H2. setoid_rewrite H3. setoid_rewrite H4. setoid_rewrite H5. exact IH.
+  - bind_type H ts c t' Et. exact (IH _ eq_refl).
+  - bind_type H ts c t' Et. exact (IH _ eq_refl).
+  - bind_type H ts c t' Et. exact (IH _ eq_refl).
+  - bind_type H ts c t' Et. exact (IH _ eq_refl).
+  - union_types H ts cs l El. unfold fields_imp. cbn. repeat split; intros; discriminate.
+  - union_types H ts cs l El. pose proof (mapM_id_types_length ts cs l El) as Hlen.
+    assert (Hz : zlen l = zlen cs) by (unfold zlen; rewrite Hlen; reflexivity).
+    unfold fields_imp. cbn [t_keys t_numfields t_fieldindex t_key t_haskey f_keys f_numfields f_fieldindex f_key f_haskey].
+    rewrite Hz, Hlen. repeat split; intros; try (apply tres_of_ok; assumption).
+    + destruct ks; unfold util_keys in *; congruence.
+  - discriminate.
+  - cbn [type_of_form] in H. exact (IH _ H).
+Qed.
+
+(* the form reaches a record through list / option / indexed / virtual nodes only *)
+Fixpoint f_record_path (f : form) : bool :=
+  match f with
+  | FRecord _ _ _ => true
+  | FListOffset _ _ c | FList _ _ _ c | FRegular _ c _ | FIndexed _ _ c | FIndexedOption _ _ c
+  | FByteMasked _ _ c _ | FBitMasked _ _ c _ _ | FUnmasked _ c => f_record_path c
+  | FVirtual _ (Some g) _ => f_record_path g
+  | _ => false
+  end.
+
+Definition fields_eq (f : form) (t : rty) : Prop :=
+  t_keys t = tres_of (f_keys f) /\ t_numfields t = tres_of (f_numfields f) /\
+  (forall k, t_fieldindex t k = tres_of (f_fieldindex f k)) /\
+  (forall i, t_key t i = tres_of (f_key f i)) /\
+  (forall k, t_haskey t k = tres_of (f_haskey f k)).
+
+(* on such a form, Type and Form agree on answers AND on the exception raised *)
+Theorem field_queries_form_type_exact ts f : forall t,
+  type_of_form ts f = Ok t -> f_record_path f = true -> fields_eq f t.
+Proof.
+  induction f as [m inner isz fmt dt|m|m o c IH|m s e c IH|m c size IH|m i c IH|m i c IH|m k c vw IH|m k c vw lsb IH
+                 |m c IH|m tg i cs IH|m ks cs IH|m hl|m g hl IH] using form_ind'; intros t H Hp; cbn [f_record_path] in Hp;
+    try discriminate.
+  - bind_type H ts c t' Et. exact (IH _ eq_refl Hp).
+  - bind_type H ts c t' Et. exact (IH _ eq_refl Hp).
+  - bind_type H ts c t' Et. exact (IH _ eq_refl Hp).
+  - destruct (indexed_type_shape ts m i c t H) as (out & p' & Ho & -> & _).
+    destruct (t_fields_set p' out) as (H1 & H2 & H3 & H4 & H5). specialize (IH _ Ho Hp).
+    unfold fields_eq in *. rewrite H1, H2. setoid_rewrite H3. setoid_rewrite H4. setoid_rewrite H5. exact IH.
+  - bind_type H ts c t' Et. exact (IH _ eq_refl Hp).
+  - bind_type H ts c t' Et. exact (IH _ eq_refl Hp).
+  - bind_type H ts c t' Et. exact (IH _ eq_refl Hp).
+  - bind_type H ts c t' Et. exact (IH _ eq_refl Hp).
+  - union_types H ts cs l El. pose proof (mapM_id_types_length ts cs l El) as Hlen.
+    assert (Hz : zlen l = zlen cs) by (unfold zlen; rewrite Hlen; reflexivity).
+    unfold fields_eq. cbn [t_keys t_numfields t_fieldindex t_key t_haskey f_keys f_numfields f_fieldindex f_key f_haskey].
+    rewrite Hz, Hlen. repeat split. destruct ks; reflexivity.
+  - cbn [type_of_form] in H. exact (IH _ H Hp).
+Qed.
+
+(* off that fragment Type and Form differ: a leaf (NumpyForm::keys = {}, haskey = false; PrimitiveType throws
+   "type contains no Records") and a union (UnionForm::keys = the common keys, numfields their number;
+   UnionType throws the runtime_error "FIXME") *)
+Example field_queries_form_type_refuted :
+  (exists t, type_of_form [] f_i64 = Ok t /\ f_keys f_i64 = Ok [] /\ t_keys t = TErr TInvalid /\
+             f_haskey f_i64 [120] = Ok false /\ t_haskey t [120] = TErr TInvalid) /\
+  (exists t, type_of_form [] f_big = Ok t /\ f_keys f_big = Ok [[121]] /\ t_keys t = TErr TRuntime /\
+             f_numfields f_big = Ok 1 /\ t_numfields t = TErr TRuntime /\
+             f_haskey f_big [121] = Ok true /\ t_haskey t [121] = TErr TRuntime /\
+             f_fieldindex f_big [121] = Err EValue /\ t_fieldindex t [121] = TErr TRuntime).
+Proof. split; eexists; repeat split. Qed.
+
+(* ================================================================== Content = Form for fieldindex / key / haskey *)
+Lemma fieldindex_agree c : forall a r k, f_fieldindex (form_of_p a r c) k = c_fieldindex c k.
+Proof.
+  induction c using content_ind'; intros a r k; simpl; try reflexivity; try apply IHc.
+  unfold zlen. rewrite map_length. reflexivity.
+Qed.
+Lemma key_agree c : forall a r i, f_key (form_of_p a r c) i = c_key c i.
+Proof.
+  induction c using content_ind'; intros a r i; simpl; try reflexivity; try apply IHc.
+  unfold zlen. rewrite map_length. reflexivity.
+Qed.
+Lemma haskey_agree c : forall a r k, f_haskey (form_of_p a r c) k = c_haskey c k.
+Proof.
+  induction c using content_ind'; intros a r k; simpl; try reflexivity; try apply IHc.
+  - rewrite (mapM_id_map_ok f_keys (form_of_p None None) c_keys); [reflexivity|].
+    apply Forall_forall. intros x _. apply keys_agree.
+  - unfold zlen. rewrite map_length. reflexivity.
+Qed.
+
+(* a valid layout is in the fragment of the depth theorems *)
+Lemma idx_node_ok_record r : idx_node_ok (meta_of None r) = true.
+Proof. destruct r; reflexivity. Qed.
+
+Lemma valid_idx_ok c : forall p r, Valid p c -> idx_ok (form_of_p p r c) = true.
+Proof.
+  induction c using content_ind'; intros p r HV; inversion HV; subst; cbn [form_of_p idx_ok]; auto.
+  - match goal with Hp : ParamOk p _, Hs : is_strk p = false -> _ |- _ =>
+      destruct p as [[]|]; simpl in Hp; try contradiction;
+      try (destruct Hp as (c' & rn & n & d & Hc & ->); inversion Hc; subst; reflexivity);
+      eapply IHc; apply Hs; reflexivity end.
+  - match goal with Hp : ParamOk p _, Hs : is_strk p = false -> _ |- _ =>
+      destruct p as [[]|]; simpl in Hp; try contradiction;
+      try (destruct Hp as (c' & rn & n & d & Hc & ->); inversion Hc; subst; reflexivity);
+      eapply IHc; apply Hs; reflexivity end.
+  - match goal with Hp : ParamOk p _, Hs : is_strk p = false -> _ |- _ =>
+      destruct p as [[]|]; simpl in Hp; try contradiction;
+      try (destruct Hp as (c' & rn & n & d & Hc & ->); inversion Hc; subst; reflexivity);
+      eapply IHc; apply Hs; reflexivity end.
+  - match goal with Hp : ParamOk p _ |- _ =>
+      destruct p as [[]|]; simpl in Hp; try contradiction;
+      try (destruct Hp as (c' & rn & n & d & Hc & _); discriminate Hc) end.
+    rewrite idx_node_ok_record. simpl. eauto.
+  - rewrite forallb_forall. intros x Hx. apply in_map_iff in Hx as (y & <- & Hy).
+    rewrite Forall_forall in H. match goal with HF : Forall (Valid None) cs |- _ => rewrite Forall_forall in HF; eauto end.
+  - rewrite forallb_forall. intros x Hx. apply in_map_iff in Hx as (y & <- & Hy).
+    rewrite Forall_forall in H. match goal with HF : Forall (Valid None) cs |- _ => rewrite Forall_forall in HF; eauto end.
+Qed.
+
+Lemma ok_inj {A} (x y : A) : Ok x = Ok y -> x = y.
+Proof. congruence. Qed.
+
+(* Content = Form = Type for a valid layout *)
+Theorem queries_content_form_type ts c : Valid None c ->
+  exists t, type_of_form ts (form_of c) = Ok t /\ erase t = type_of c /\
+    t_purelist_depth t = c_purelist_depth None c /\
+    t_minmax_depth t = c_minmax_depth None c /\
+    t_branch_depth t = c_branch_depth None c /\
+    t_purelist_isregular t = c_purelist_isregular c /\
+    (forall ks, t_keys t = TOk ks -> c_keys c = ks) /\
+    (forall n, t_numfields t = TOk n -> c_numfields c = n) /\
+    (forall k i, t_fieldindex t k = TOk i -> c_fieldindex c k = Ok i) /\
+    (forall i k, t_key t i = TOk k -> c_key c i = Ok k) /\
+    (forall k b0, t_haskey t k = TOk b0 -> c_haskey c k = Ok b0).
+Proof.
+  intros HV. pose proof (type_of_form_of_gen ts c None None HV) as Ht. unfold rerase, rmap in Ht.
+  fold (form_of c) in Ht. destruct (type_of_form ts (form_of c)) as [t|e] eqn:Et; [|discriminate].
+  exists t. split; [reflexivity|]. split; [unfold type_of; congruence|].
+  pose proof (valid_np_ok c None HV) as Hnp. pose proof (valid_idx_ok c None None HV) as Hix. fold (form_of c) in Hix.
+  destruct (field_queries_form_type ts (form_of c) t Et) as (F1 & F2 & F3 & F4 & F5).
+  split; [apply ok_inj; rewrite <- (purelist_depth_form_type ts _ Hix t Et); apply purelist_depth_agree, Hnp|].
+  split; [apply ok_inj; rewrite <- (minmax_depth_form_type ts _ Hix t Et); apply minmax_depth_agree, Hnp|].
+  split; [apply ok_inj; rewrite <- (branch_depth_form_type ts _ Hix t Et); apply branch_depth_agree, Hnp|].
+  split; [apply ok_inj; rewrite <- (purelist_isregular_form_type ts _ t Et); apply purelist_isregular_agree|].
+  split; [intros ks Hk; apply ok_inj; rewrite <- (F1 ks Hk); symmetry; apply keys_agree|].
+  split; [intros n Hk; apply ok_inj; rewrite <- (F2 n Hk); symmetry; apply numfields_agree|].
+  split; [intros k i Hk; rewrite <- (F3 k i Hk); symmetry; apply fieldindex_agree|].
+  split; [intros i k Hk; rewrite <- (F4 i k Hk); symmetry; apply key_agree|].
+  intros k b0 Hk; rewrite <- (F5 k b0 Hk); symmetry; apply haskey_agree.
+Qed.
+
+(* ---- categorical IndexedForm nodes are in the fragment (their __array__ is erased from the type) ... *)
+Definition f_cat : form :=
+  FListOffset meta0 Fi64 (FIndexed (mkmeta false [(k_array, JStr s_categorical); (k_record, JStr [80])] None) Fi64
+                            (FListOffset meta0 Fi64 (FIndexedOption meta0 Fi64 f_rec))).
+Example depth_form_type_categorical_example :
+  idx_ok f_cat = true /\
+  exists t, type_of_form [] f_cat = Ok t /\ is_categorical (rty_params match t with RList _ _ t' => t' | _ => t end) = true /\
+            f_purelist_depth f_cat = Ok 3 /\ t_purelist_depth t = 3 /\
+            f_minmax_depth f_cat = Ok (4, 5) /\ t_minmax_depth t = (4, 5) /\
+            f_branch_depth f_cat = Ok (true, 4) /\ t_branch_depth t = (true, 4).
+Proof. split; [reflexivity|]. eexists. repeat split. Qed.
+
+(* ... unless the parameters are not a map: a second __array__ entry surfaces once the first is erased *)
+Definition f_cat_dup : form :=
+  FIndexed (mkmeta false [(k_array, JStr s_categorical); (k_array, JStr s_string)] None) Fi64 (FListOffset meta0 Fi64 f_i64).
+Example depth_form_type_categorical_refuted :
+  idx_ok f_cat_dup = false /\
+  exists t, type_of_form [] f_cat_dup = Ok t /\ f_purelist_depth f_cat_dup = Ok 2 /\ t_purelist_depth t = 1.
+Proof. split; [reflexivity|]. eexists. repeat split. Qed.
